@@ -1,5 +1,5 @@
 SPECIFICATION Spec
-CONSTANT NKeys = 8
+CONSTANT NKeys = 7
 CONSTANT Depth = 3
 CONSTANT MemoLen = 3
 CONSTANT Mutation = "none"
